@@ -45,7 +45,7 @@ CHECKS["C10"] = {
 CHECKS["C17"] = {
     "engine": "entropy-history-sim",
     "level": "exploration",
-    "text": "Seeded histories of artifact constructions (SB2.0/2.1 default, partly explicit and explicit parameters; encrypted MBI through the generated class and through load_from_config; OTFAD, IEE, BEE key blobs; HAB DEK and nonce in a durable workspace; the legacy BootImgRT class; BEE / IEE through load_from_config incl. empty keys and reused dictionaries; a BD keywrap statement; one MBI object loaded twice; SB2.1 through the BD-file configuration path; helper objects and parsed configurations shared between builds; os.fork workers inside a lifetime) across 1..3 simulated interpreter lifetimes (forked children that import spsdk afresh in a plan-chosen module order). OS entropy is replaced by an injective counter device and the wall clock by a simulated one that the plan repeats or steps back across restarts, so two equal secrets can only come from reuse in the code (default argument, class-level value, value derived from the clock). Oracle: all self-chosen slots of a history are pairwise distinct and no (key, nonce) pair repeats. Sampling of histories, not proof.",
+    "text": "Seeded histories of artifact constructions (SB2.0/2.1 default, partly explicit and explicit parameters; encrypted MBI through the generated class and through load_from_config; OTFAD, IEE, BEE key blobs; HAB DEK and nonce in a durable workspace, also through the complete nxpimage hab export route (HabContainer.load_from_config on a committed example); the legacy BootImgRT class; BEE / IEE through load_from_config incl. empty keys and reused dictionaries; a BD keywrap statement; one MBI object loaded twice; SB2.1 through the BD-file configuration path; helper objects and parsed configurations shared between builds; os.fork workers inside a lifetime) across 1..3 simulated interpreter lifetimes (forked children that import spsdk afresh in a plan-chosen module order). OS entropy is replaced by an injective counter device and the wall clock by a simulated one that the plan repeats or steps back across restarts, so two equal secrets can only come from reuse in the code (default argument, class-level value, value derived from the clock). Oracle: all self-chosen slots of a history are pairwise distinct and no (key, nonce) pair repeats. Sampling of histories, not proof.",
     "note": "Trusted: the entropy/clock seams at the stdlib boundary (secrets, os.urandom, time, datetime), fork + fresh import as the model of a restart, the slot readers in /verif/c17/epoch.py. OpenSSL's own RNG is not observed.",
     "technique": "deterministic simulation with fault injection: injective entropy device + repeatable clock across simulated restarts, seeded construction histories, pairwise-freshness oracle",
     "design_ref": "4.3",
